@@ -89,9 +89,9 @@ def main():
     m = dict(
         version=1,
         setup_cmd="./setup.sh",
-        hooks=dict(guard="multiqueue2_verif", enable='RUSTFLAGS="--cfg multiqueue2_verif" (set by tools/pipeline.py for cargo kani and for the native replay build)',
+        hooks=dict(guard="multiqueue2_verif", enable='RUSTFLAGS="--cfg multiqueue2_verif" (set by tools/pipeline.py for cargo kani and for the native replay build; the replay build of whole-queue harnesses adds --cfg multiqueue2_verif_stubmm, which only has an effect under the first guard)',
                    baseline_off_cmd="cd /repo && cargo test --workspace --no-fail-fast --offline",
-                   source_commits=["cb03eb5", "d7a1a93"], add_only=True),
+                   source_commits=["cb03eb5", "d7a1a93", "9710ce8", "71fde00", "bced28f", "5478098"], add_only=True),
         engines=[
             dict(name="kani-cbmc", path="/verif/tools/pipeline.py", serves_properties=claimed,
                  kind_free_text="Kani 0.68 codegen of /verif/harness (path dependency on /repo, guard on, -Z stubbing) -> goto-cc / goto-instrument -> CBMC 6.11 with cadical, per-loop unwind bounds, unwinding assertions; native replay of counterexamples"),
